@@ -4,6 +4,7 @@ import Qryn.Proofs.PromSelect
 import Qryn.Proofs.ProfSelector
 import Qryn.Proofs.Stepped
 import Qryn.Proofs.Downsample
+import Qryn.Proofs.PromLabels
 /-! # C17 — Prometheus and Pyroscope label matchers select exactly the matching series
 
 Property theorems only.
@@ -868,5 +869,81 @@ example : down ⟨1700000010000, 1700000100000, 30000, 60000, "sum_over_time"⟩
     = some [⟨1, 1700000009999, 15, 1⟩, ⟨1, 1700000039999, 2, 1⟩] := by decide
 
 end Downsample
+
+/-! ## Part 7 — the Prometheus metadata endpoints (`/api/v1/labels`, `/api/v1/label/<name>/values`, `/api/v1/series`)
+
+Model: `Qryn.Prom.Labels` — `QueryLabelsService.PromLabels / PromValues / PromSeries` with the controllers' `match[]`
+handling (after `fix: the Prometheus series and label values endpoints select with the PromQL matcher semantics`,
+`fix: /api/v1/labels honours match[]`): every selector is planned by `fingerprintsQuery` (Part 3), the selectors are
+combined with `UNION ALL` (`fpUnion`), and the statement restricts the label index / the series table to the window
+(`date ≥ FormatFromDate(start)`, `date ≤ UTC date of end`, both as byte-ordered `YYYY-MM-DD` strings — their arithmetic is
+C13's), the metrics type (or type 0) and the selected fingerprints. The three theorems quantify over **every** `match[]`
+list (`none` = the request carries no `match[]`), every window and every database in which fingerprints identify series and
+label names are unique within a series; `hs`: at most 63 matchers per selector and the series can be found in the index at
+all (a matcher that rejects the empty value — Prometheus' `ParseMetricSelector` refuses a selector without one — or every
+stored series has a label); `hanch` as in Part 3. -/
+section Metadata
+open Qryn Qryn.Prom Qryn.Prom.Labels
+
+/-- **prom_label_names_exact.** `/api/v1/labels`: the statement is planned (no planner error) and returns, without duplicates,
+    **exactly the label names of the stored series inside the window that one of the `match[]` selectors selects in
+    Prometheus' sense** (of all stored series inside the window when the request has no `match[]`). -/
+theorem prom_label_names_exact (search full : Bytes → Bytes → Bool) (hanch : ∀ p s, search (anchor p) s = full p s)
+    (table : String) (w : Win) (sels : Option (List (List Matcher))) (db : List Stored) (wf : WellFormed db)
+    (hs : ∀ ss, sels = some ss → SelsOk full ss db) :
+    ∃ u, unionOf full table w.fromDate w.tp sels = some u ∧
+      let out := namesEval w (u.map (·.eval search Gen.PromSelect.shiftWidth (indexRows db))) (indexRows db)
+      out.Nodup ∧ ∀ n, n ∈ out ↔ ∃ s ∈ db, inWindow w s = true ∧ wanted full sels s ∧ n ∈ s.labels.map (·.1) := by
+  obtain ⟨u, hu, hf⟩ := unionOf_spec search full hanch table w.fromDate w.tp sels db wf hs
+  exact ⟨u, hu, namesEval_spec full w sels db wf _ hf⟩
+
+/-- **prom_label_values_exact.** `/api/v1/label/<name>/values`: the statement returns the first `limit` entries (10000; all of
+    them when there are fewer) of the duplicate-free list of **exactly the values the label has on the stored series inside
+    the window that one of the `match[]` selectors selects** (on all of them without `match[]`). -/
+theorem prom_label_values_exact (search full : Bytes → Bytes → Bool) (hanch : ∀ p s, search (anchor p) s = full p s)
+    (table : String) (w : Win) (limit : Nat) (name : Bytes) (sels : Option (List (List Matcher))) (db : List Stored)
+    (wf : WellFormed db) (hs : ∀ ss, sels = some ss → SelsOk full ss db) :
+    ∃ u, unionOf full table w.fromDate w.tp sels = some u ∧
+      ∃ L, valuesEval w limit name (u.map (·.eval search Gen.PromSelect.shiftWidth (indexRows db))) (indexRows db) = limited limit L ∧
+        L.Nodup ∧ ∀ v, v ∈ L ↔ ∃ s ∈ db, inWindow w s = true ∧ wanted full sels s ∧ (name, v) ∈ s.labels := by
+  obtain ⟨u, hu, hf⟩ := unionOf_spec search full hanch table w.fromDate w.tp sels db wf hs
+  exact ⟨u, hu, valuesEval_spec full w limit name sels db wf _ hf⟩
+
+/-- **prom_series_exact.** `/api/v1/series`: the statement returns the first `limit` entries of the duplicate-free list of
+    **exactly the label-set documents of the stored series inside the window that one of the `match[]` selectors selects**;
+    `enc` = the JSON document the writer stores for a label set (C04). -/
+theorem prom_series_exact (search full : Bytes → Bytes → Bool) (hanch : ∀ p s, search (anchor p) s = full p s)
+    (table : String) (w : Win) (limit : Nat) (enc : List (Bytes × Bytes) → Bytes) (ss : List (List Matcher))
+    (db : List Stored) (wf : WellFormed db) (hs : SelsOk full ss db) :
+    ∃ u, fpUnion full table w.fromDate w.tp ss = some u ∧
+      ∃ L, seriesEval w limit (u.eval search Gen.PromSelect.shiftWidth (indexRows db)) (tsRows enc db) = limited limit L ∧
+        L.Nodup ∧ ∀ d, d ∈ L ↔ ∃ s ∈ db, inWindow w s = true ∧ matchedBy full ss s ∧ d = enc s.labels := by
+  obtain ⟨u, hu, hiff⟩ := fpUnion_selects search full hanch table w.fromDate w.tp ss db wf hs
+  exact ⟨u, hu, seriesEval_spec full w limit enc ss db wf _ hiff⟩
+
+/-- below the limit nothing is cut off: `limited` is the identity (the limit is 10000 rows) -/
+theorem prom_metadata_limit (limit : Nat) (L : List Bytes) (h : limit = 0 ∨ L.length ≤ limit) : limited limit L = L := by
+  unfold limited
+  split
+  · rcases h with h | h
+    · omega
+    · exact List.take_of_length_le h
+  · rfl
+
+-- a concrete run: {__name__="up"} and {job!="x"} over three series, window [2023-11-14, 2023-11-15]
+-- (up = [117,112], job = [106,111,98], x = [120], y = [121]); series 9 has job="x", series 11 is dated before the window
+example : ((fpUnion (fun _ _ => false) "g" [50, 48] 2
+      [[⟨[95, 95, 110, 97, 109, 101, 95, 95], .eq, [117, 112]⟩, ⟨[106, 111, 98], .ne, [120]⟩]]).map (fun u =>
+    namesEval ⟨[50, 48], [50, 49], 2⟩ (some (u.eval (fun _ _ => false) 64 (indexRows
+        [⟨7, [([95, 95, 110, 97, 109, 101, 95, 95], [117, 112]), ([97], [49])], [50, 48], 2⟩,
+         ⟨9, [([95, 95, 110, 97, 109, 101, 95, 95], [117, 112]), ([106, 111, 98], [120])], [50, 48], 2⟩,
+         ⟨11, [([95, 95, 110, 97, 109, 101, 95, 95], [117, 112]), ([98], [49])], [49], 2⟩])))
+      (indexRows
+        [⟨7, [([95, 95, 110, 97, 109, 101, 95, 95], [117, 112]), ([97], [49])], [50, 48], 2⟩,
+         ⟨9, [([95, 95, 110, 97, 109, 101, 95, 95], [117, 112]), ([106, 111, 98], [120])], [50, 48], 2⟩,
+         ⟨11, [([95, 95, 110, 97, 109, 101, 95, 95], [117, 112]), ([98], [49])], [49], 2⟩])))
+    = some [[95, 95, 110, 97, 109, 101, 95, 95], [97]] := by decide
+
+end Metadata
 
 end Qryn.C17
